@@ -371,12 +371,31 @@ FUNCTIONS['TRIM'] = wrap_ufunc(xtrim, **_kw1)
 FUNCTIONS['UPPER'] = wrap_ufunc(str.upper, **_kw1)
 
 
+_re_search_wildcard = regex.compile(r'~([\?\*~])|(\?)|(\*)|([^~\?\*]+|~)')
+
+
+def _search_sub(m):
+    escaped, one, many, text = m.groups()
+    if one:
+        return '.'
+    if many:
+        return '.*?'
+    return regex.escape(escaped or text)
+
+
 def xsearch(find_text, within_text, start_num=1):
-    n = int(start_num - 1)
-    n = str(within_text).lower().find(str(find_text).lower(), n)
-    if n < 0:
+    find_text, within_text = _str(find_text), _str(within_text)
+    n = int(start_num or 0) - 1
+    if not 0 <= n <= len(within_text):
         return Error.errors['#VALUE!']
-    return n + 1
+    # Case-insensitive, with the wildcards `?` and `*` (escaped by `~`).
+    match = regex.compile(
+        _re_search_wildcard.sub(_search_sub, find_text),
+        regex.IGNORECASE | regex.DOTALL
+    ).search(within_text, n)
+    if match is None:
+        return Error.errors['#VALUE!']
+    return match.start() + 1
 
 
 FUNCTIONS['SEARCH'] = wrap_ufunc(xsearch, **_kw0)
